@@ -72,6 +72,7 @@ func runC01(c *Ctx) {
 	c01R4(c)
 	c04R2(c)
 	c01R6(c, "C01.R6")
+	c01Served(c)
 	if g := newGossipAnchors(c.P); g.ok {
 		c02R3(c, g)
 	}
@@ -578,6 +579,8 @@ func c01R6(c *Ctx, rule string) {
 // ---------------------------------------------------------------- C08
 
 func runC08(c *Ctx) {
+	c08ErrorBody(c)
+	errDiscipline(c, "C08.R5", pkgFuncs(c.P, "server/proxy"), 3)
 	c08Director(c, "C08.R1")
 	c08R2(c)
 	c08R3(c)
@@ -1072,5 +1075,122 @@ func c08R4(c *Ctx) {
 			}
 		}
 		c.check(bad == "" && nT == 1, "C08.R4", fnName(fn)+"/timeout-selection", serve.Pos(), "timeout context exactly when configured and not a WebSocket upgrade", bad)
+	}
+}
+
+// c01Served (C01.R7): an upstream that was selected is used: every path on
+// which Select reported an upstream goes on to hand exactly that upstream to the
+// reverse-proxy hop or to dial it. (A branch that recognises a remote node and
+// then just returns answers nothing although a reachable node has the endpoint.)
+func c01Served(c *Ctx) {
+	p := c.P
+	c.floor("C01.R7", 2)
+	for _, fn := range pkgFuncs(p, "server/proxy") {
+		for _, call := range findCallsSuffix(fn, ".Select") {
+			cc := callCommon(call)
+			if cc == nil || !cc.IsInvoke() && !strings.Contains(commonName(cc), "server/upstream") {
+				continue
+			}
+			cv, ok := call.(ssa.Value)
+			if !ok {
+				continue
+			}
+			var u, okv ssa.Value
+			for _, r := range *cv.Referrers() {
+				if ex, ok := r.(*ssa.Extract); ok {
+					if ex.Index == 0 {
+						u = ex
+					} else {
+						okv = ex
+					}
+				}
+			}
+			if u == nil || okv == nil {
+				c.undecided("C01.R7", fnName(fn)+"/select-result", call.Pos(), "Select's results are not both bound")
+				continue
+			}
+			c.analysed(fnName(fn))
+			serves := func(i ssa.Instruction) bool {
+				sc := callCommon(i)
+				if sc == nil {
+					return false
+				}
+				if sc.IsInvoke() && sc.Method.Name() == "Dial" && strip(sc.Value) == u {
+					return true
+				}
+				if strings.HasSuffix(commonName(sc), "HTTPProxy).ServeHTTPWithUpstream") {
+					_, args := recvAndArgs(sc)
+					return len(args) >= 4 && strip(args[3]) == u
+				}
+				return false
+			}
+			paths, complete := enumPaths(call, serves, nil, func(pa *fpath) bool { return len(pa.seen) > 0 }, 400)
+			bad := ""
+			if !complete {
+				bad = "too many paths"
+			}
+			for _, pa := range paths {
+				if len(pa.seen) > 0 {
+					continue
+				}
+				if anyFact(pa.facts, func(f Fact) bool { return f.V == okv && !f.T }) {
+					continue // nothing was selected
+				}
+				if pa.endWhy == "panic" {
+					continue
+				}
+				bad = "a path on which an upstream was selected ends at " + p.pos(pa.end.Pos()) + " without dialling it or handing it to the reverse-proxy hop; facts " + factStrings(pa.facts)
+			}
+			c.check(bad == "", "C01.R7", fnName(fn)+"/selected-upstream-is-served", call.Pos(), "every path with a selected upstream dials it or forwards to it", bad)
+		}
+	}
+}
+
+func findCallsSuffix(fn *ssa.Function, suffix string) []ssa.Instruction {
+	var out []ssa.Instruction
+	for _, f := range withAnon(fn) {
+		allInstrs(f, func(i ssa.Instruction) {
+			if cc := callCommon(i); cc != nil {
+				if cc.IsInvoke() && "."+cc.Method.Name() == suffix || !cc.IsInvoke() && strings.HasSuffix(commonName(cc), suffix) {
+					out = append(out, i)
+				}
+			}
+		})
+	}
+	return out
+}
+
+// c08ErrorBody (C08.R3b): the helper that writes piko's own error answers
+// sets the status it was given before writing the body.
+func c08ErrorBody(c *Ctx) {
+	p := c.P
+	n := 0
+	for _, fn := range p.ModFuncs {
+		if isTestFile(p.Fset, fn.Pos()) || fn.Name() != "errorResponse" || fn.Parent() != nil || len(fn.Params) < 2 {
+			continue
+		}
+		n++
+		c.analysed(fnName(fn))
+		w, code := ssa.Value(fn.Params[0]), ssa.Value(fn.Params[1])
+		isWH := func(i ssa.Instruction) bool {
+			cc := callCommon(i)
+			return cc != nil && cc.IsInvoke() && cc.Method.Name() == "WriteHeader" && strip(cc.Value) == w && len(cc.Args) == 1 && strip(cc.Args[0]) == code
+		}
+		writesBody := func(i ssa.Instruction) bool {
+			cc := callCommon(i)
+			if cc == nil {
+				return false
+			}
+			if cc.IsInvoke() && cc.Method.Name() == "Write" && strip(cc.Value) == w {
+				return true
+			}
+			n := commonName(cc)
+			return strings.HasSuffix(n, "json.Encoder).Encode") || n == "fmt.Fprint" || n == "fmt.Fprintf" || n == "io.WriteString"
+		}
+		end := everyPathEntry(fn, isWH, writesBody, true)
+		c.check(end == nil, "C08.R3", fnName(fn)+"/writes-given-status", fn.Pos(), "w.WriteHeader(statusCode) precedes the body on every path", "the error helper does not write the status code it was given before the body: the client sees 200 with an error body")
+	}
+	if n < 2 {
+		c.fail("C08.R3", "errorResponse-helpers", token.NoPos, fmt.Sprintf("expected the proxy's and the agent's errorResponse helpers, found %d", n))
 	}
 }
